@@ -116,27 +116,67 @@ def explicit_value(ty, salt):
     return 900000 + salt      # an id chosen by the caller
 
 
+def apply_edit(schema, edit):
+    """The oracle's own record of a schema edit (schema: list of [name, type] in attribute order), as documented for
+    MetaClass.append_attribute / insert_attribute (list.insert semantics of the index) / delete_attribute (by name)."""
+    if edit[0] == 'append':
+        schema.append([edit[2], edit[3]])
+    elif edit[0] == 'insert':
+        schema.insert(edit[2], [edit[3], edit[4]])
+    elif edit[0] == 'delete':
+        for i, (n, _) in enumerate(schema):
+            if n == edit[2]:
+                del schema[i]
+                break
+    else:
+        raise ValueError(edit)
+
+
 def evaluate_history(case):
-    """case: dict(gen=kind, classes=[[ [name, type], ...], ...], ref=bool, creations=[[class_index, npos, [kw indices], how], ...])"""
+    """case: dict(gen=kind, classes=[[ [name, type], ...], ...], ref=bool, creations=[[class_index, npos, [kw indices], how], ...])
+    or, instead of creations, steps=[...] where a step is a creation ['new', class_index, npos, [kw indices], how] or a schema
+    edit ['append', class_index, name, type] / ['insert', class_index, index, name, type] / ['delete', class_index, name].
+    Attributes are judged by the type they have at the time of the creation."""
     out = []
     log = {'next': [], 'read': []}
     m = xtuml.MetaModel(make_generator(case['gen'], log))
     classes = case['classes']
+    schema = {}
     for ci, attrs in enumerate(classes):
         m.define_class('K%d' % ci, [tuple(a) for a in attrs])
+        schema[ci] = [list(a) for a in attrs]
     referential = {}
     if case.get('ref'):
         # class K0 gets a referential attribute in front: K0.Ref -> T.Id ; it stays unrelated
         m.define_class('T', [('Id', 'INTEGER')])
         m.find_metaclass('K0').insert_attribute(case.get('ref_pos', 0), 'Ref', 'INTEGER')
+        schema[0].insert(case.get('ref_pos', 0), ['Ref', 'INTEGER'])
         ass = m.define_association(1, 'K0', ['Ref'], True, True, '', 'T', ['Id'], False, True, '')
         ass.formalize()
         referential[0] = 'Ref'
     defaulted = []          # defaulted unique ids in draw order
     any_explicit_id = False
-    for step, (ci, npos, kws, how) in enumerate(case['creations']):
+    steps = case['steps'] if 'steps' in case else [['new'] + list(c) for c in case['creations']]
+    for step, st in enumerate(steps):
+        if st[0] != 'new':
+            mc = m.find_metaclass('K%d' % st[1])
+            added = st[2] if st[0] == 'append' else (st[3] if st[0] == 'insert' else None)
+            if added is not None and added.upper() in [n.upper() for n, _ in schema[st[1]]]:
+                return out      # two attributes of one name: outside the space (the property does not say which type counts)
+            try:
+                if st[0] == 'append':
+                    mc.append_attribute(st[2], st[3])
+                elif st[0] == 'insert':
+                    mc.insert_attribute(st[2], st[3], st[4])
+                else:
+                    mc.delete_attribute(st[2])
+            except Exception:   # noqa: the property says nothing about schema edits; what follows cannot be judged
+                return out
+            apply_edit(schema[st[1]], st)
+            continue
+        _, ci, npos, kws, how = st
         mc = m.find_metaclass('K%d' % ci)
-        attrs = list(mc.attributes)
+        attrs = [tuple(a) for a in schema[ci]]
         args = []
         for i in range(min(npos, len(attrs))):
             name, ty = attrs[i]
@@ -206,6 +246,15 @@ def shrink_history(case, clause):
             return any(f['clause'] == clause for f in evaluate_history(c))
         except Exception:
             return False
+    if 'steps' in case:
+        cur = dict(case)
+        i = len(cur['steps']) - 1
+        while i >= 0 and len(cur['steps']) > 1:
+            cand = dict(cur, steps=cur['steps'][:i] + cur['steps'][i + 1:])
+            if fails(cand):
+                cur = cand
+            i -= 1
+        return cur
     cur = dict(case)
     for c in case['creations']:
         one = dict(case, creations=[c])
@@ -263,6 +312,81 @@ def history_cases(nmax, rng_for):
                 # with a referential attribute inside the class: positional indices count it
                 creations = [[0, npos, kws, 0] for (npos, kws) in modes(n + 1)]
                 yield dict(gen=gen, classes=[attrs0, attrs1], ref=True, ref_pos=k % (n + 1), creations=creations)
+
+
+# ------------------------------------------------------------------ creation sequences interleaved with schema edits
+
+def possible_edits(schema, k, fresh):
+    """The edits applicable to the class as the oracle records it; an edit is a list of steps (without the class index).
+       retype   an attribute gets another (or the same) type: delete + append / insert at its old index / insert in front
+       add      a new attribute of each type: in front, at index 1, appended
+       delete   an attribute goes"""
+    names = [n for n, _ in schema]
+    for i, name in enumerate(names):
+        for ti, t in enumerate(CORE):
+            ty = spell(t, k + ti)
+            yield [['delete', name], ['append', name, ty]]
+            if i < len(names) - 1 or len(names) == 1:
+                yield [['delete', name], ['insert', i, name, ty]]
+            if i > 0:
+                yield [['delete', name], ['insert', 0, name, ty]]
+    for ti, t in enumerate(CORE):
+        ty = spell(t, k + ti + 1)
+        yield [['append', fresh, ty]]
+        yield [['insert', 0, fresh, ty]]
+        if len(names) >= 2:
+            yield [['insert', 1, fresh, ty]]
+    for name in names:
+        yield [['delete', name]]
+
+
+def stage_creations(n, k):
+    """Creations after the class reached a new shape: twice with everything omitted, then three argument mixes (rotating through
+    every mix of positional prefix and keyword subset), one creation in the second class in between."""
+    ms = list(modes(n))
+    out = [['new', 0, 0, [], k % 4], ['new', 0, 0, [], (k + 1) % 4], ['new', 1, 0, [], k % 4]]
+    for j in range(3):
+        npos, kws = ms[(k * 3 + j * 7) % len(ms)]
+        out.append(['new', 0, npos, kws, (k + j) % 4])
+    out.append(['new', 0, 0, [], (k + 2) % 4])
+    return out
+
+
+def edit_scripts(base, depth, k0):
+    """Every sequence of <= depth edits on the class `base` (depth first, edits chosen from what applies at that point)."""
+    def rec(schema, script, k):
+        yield script
+        if len(script) == depth:
+            return
+        for e in possible_edits(schema, k, 'N%d' % len(script)):
+            nxt = [list(a) for a in schema]
+            for st in e:
+                apply_edit(nxt, [st[0], 0] + st[1:])
+            for r in rec(nxt, script + [e], k + 1):
+                yield r
+    return rec([list(a) for a in base], [], k0)
+
+
+def edited_history_cases(depth, stride=1):
+    k = 0
+    attrs1 = [['Id', 'UNIQUE_ID'], ['N', 'integer'], ['Id2', 'unique_id']]
+    for b, (t0, t1) in enumerate(itertools.product(CORE, repeat=2)):
+        base = [['A_0', spell(t0, b)], ['a1X', spell(t1, b + 1)]]
+        for script in edit_scripts(base, depth, b):
+            k += 1
+            if len(script) == depth and depth > 2 and k % stride:
+                continue
+            gens = ('integer', 'uuid', 'user') if len(script) <= 1 else (('integer', 'uuid', 'user')[k % 3],)
+            for gen in gens:
+                schema = [list(a) for a in base]
+                steps = stage_creations(len(schema), k)
+                for j, e in enumerate(script):
+                    for st in e:
+                        full = [st[0], 0] + st[1:]
+                        steps.append(full)
+                        apply_edit(schema, full)
+                    steps += stage_creations(len(schema), k + j + 1)
+                yield dict(gen=gen, classes=[base, attrs1], ref=False, steps=steps)
 
 
 # ------------------------------------------------------------------ generators on their own
@@ -392,7 +516,7 @@ def _drive(ctx, cases, fn, nontrivial=lambda c: True, shrink=None):
             'metamodel that go through every argument mix (positional prefix 0..n x every keyword subset, keywords may override), '
             'interleaved with creations in a second class with two unique ids; every third schema also with a referential '
             'attribute inside the class',
-      shards=16, weight=4)
+      shards=7, weight=4)
 def creation_histories(ctx):
     import random
     seed = ctx.seed
@@ -402,11 +526,25 @@ def creation_histories(ctx):
     _drive(ctx, history_cases(4 if ctx.quick else 5, rng_for), evaluate_history, shrink=shrink_history)
 
 
+@item('schema-edit-histories', stands_in_for=['xtuml.meta.MetaClass.new', 'xtuml.meta.MetaClass.default_value', 'xtuml.meta.MetaClass.append_attribute',
+                                             'xtuml.meta.MetaClass.insert_attribute', 'xtuml.meta.MetaClass.delete_attribute'],
+      bound='a class of two attributes (every pair of the 5 core types, type names in rotated letter case) next to a class with two unique ids; every '
+            'sequence of <= 2 schema edits (thorough: <= 3, every 5th of length 3) out of: any attribute gets any of the 5 types (delete + append / insert at its old index / insert in '
+            'front, so also to and from UNIQUE_ID), a new attribute of any type in front / at index 1 / appended, any attribute deleted; before the '
+            'first and after every edit 7 creations (everything omitted x3, three rotating mixes of positional/keyword arguments, one in the other '
+            'class); all 3 generators for <= 1 edit, rotated beyond; every creation judged by the types the attributes have at that time',
+      shards=6, weight=2)
+def schema_edit_histories(ctx):
+    if ctx.shard == 0:
+        ctx.note('not checked: values of instances that existed before a schema edit (the property speaks of creation only)')
+    _drive(ctx, edited_history_cases(2 if ctx.quick else 3, 5), evaluate_history, shrink=shrink_history)
+
+
 @item('generators', stands_in_for=['xtuml.tools.IdGenerator.peek', 'xtuml.tools.IdGenerator.next', 'xtuml.tools.IntegerGenerator.readfunc',
                                    'xtuml.tools.UUIDGenerator.readfunc'],
       bound='every interleaving of next()/builtin next/iter+next/peek() of length <= 6 (4 ops) and of next()/peek() of length <= 9 (quick) / '
             '<= 12 (thorough), on IntegerGenerator, UUIDGenerator and a scripted IdGenerator subclass; plus runs of 2000 draws',
-      shards=4, weight=1)
+      shards=2, weight=1)
 def generators(ctx):
     _drive(ctx, generator_cases(9 if ctx.quick else 12), evaluate_generator, nontrivial=lambda c: 'n' in c['ops'].lower())
 
@@ -414,7 +552,7 @@ def generators(ctx):
 @item('unknown-types', stands_in_for=['xtuml.meta.MetaClass.default_value'],
       bound='7 unknown type names x 4 spellings, alone or next to 1..2 attributes of core types at every position, through '
             'default_value(), new() without arguments and new() with all other attributes given',
-      shards=2, weight=1)
+      shards=1, weight=1)
 def unknown_types(ctx):
     if ctx.shard == 0:
         ctx.note('not checked: new() with an explicit value for the attribute of unknown type (the property does not say whether that is rejected)')
@@ -424,5 +562,5 @@ def unknown_types(ctx):
 def replay(item_name, input):
     import logging
     logging.disable(logging.CRITICAL)
-    fn = {'creation-histories': evaluate_history, 'generators': evaluate_generator, 'unknown-types': evaluate_unknown}[item_name]
+    fn = {'creation-histories': evaluate_history, 'schema-edit-histories': evaluate_history, 'generators': evaluate_generator, 'unknown-types': evaluate_unknown}[item_name]
     return fn(input)
